@@ -81,6 +81,7 @@ var (
 	lastSite [MaxTasks + 1]int64
 	quantum  [MaxTasks + 1]int64
 	spinRun  [MaxTasks + 1]int64
+	lockDepth [MaxTasks + 1]int64 // library locks held by the task (LockAcquired / LockReleasing)
 	prio     [MaxTasks + 1]int64
 	lowPrio  int64
 	chg      [8]int64 // PCT change points / preemption countdowns
@@ -103,6 +104,10 @@ var (
 	TraceHash   uint64
 	SchedHash   uint64
 	OverBudget  int64
+	// Tainted: a task had to be stopped for good while it held a lock of the library (it
+	// waited for another lock, or did not release within the grace budget). The lock stays
+	// taken: the process must not run further cases. Never reset.
+	Tainted     int64
 	Deadlock    int64
 	AbortsFired int64
 	SpinTotal   int64
@@ -314,12 +319,21 @@ func handoff(me, n int64, site int) {
 		runtime.Gosched()
 	}
 	if OverBudget != 0 {
+		if lockDepth[me] > 0 {
+			return // runs on until it has released the library's lock (see yield)
+		}
 		panic(Abort{me, 2})
 	}
 	if Deadlock != 0 {
+		if lockDepth[me] > 0 {
+			Tainted = 1
+		}
 		panic(Abort{me, 3})
 	}
 }
+
+// graceSteps: how far beyond the step budget a task may run on to release a lock it holds.
+const graceSteps = 200000
 
 //go:norace
 func yield(site int, forced bool) {
@@ -336,8 +350,18 @@ func yield(site int, forced bool) {
 	}
 	lastSite[me] = int64(site)
 	TraceHash = (TraceHash ^ (uint64(me)<<32 | uint64(site))) * 1099511628211
-	if Steps > stepCap {
+	if Steps > stepCap || OverBudget != 0 {
 		OverBudget = 1
+		// a task is never stopped for good while it holds a lock of the library (the lock
+		// would stay taken for the rest of the process): it runs on, alone, until it has
+		// released it - unless it is itself waiting for a lock (forced) or does not get
+		// there within a grace budget, in which case the process is marked tainted
+		if lockDepth[me] > 0 && !forced && Steps <= stepCap+graceSteps {
+			return
+		}
+		if lockDepth[me] > 0 {
+			Tainted = 1
+		}
 		panic(Abort{me, 2})
 	}
 	if forced {
@@ -345,6 +369,9 @@ func yield(site int, forced bool) {
 		spinRun[me]++
 		if spinRun[me] > SpinCap {
 			Deadlock = 1
+			if lockDepth[me] > 0 {
+				Tainted = 1
+			}
 			panic(Abort{me, 3})
 		}
 	} else {
@@ -355,6 +382,23 @@ func yield(site int, forced bool) {
 		return
 	}
 	handoff(me, n, site)
+}
+
+// LockAcquired / LockReleasing bracket the critical sections of the library's own locks
+// (inserted by the instrumenter after a TryLock loop and before every Unlock).
+//
+//go:norace
+func LockAcquired() {
+	if rawLoad(&active) != 0 && current != 0 {
+		lockDepth[current]++
+	}
+}
+
+//go:norace
+func LockReleasing() {
+	if rawLoad(&active) != 0 && current != 0 && lockDepth[current] > 0 {
+		lockDepth[current]--
+	}
 }
 
 // Yield is a scheduling point inserted by the instrumenter.
@@ -480,6 +524,7 @@ func Start(c *Config) {
 	hot, nchg, lowPrio = 0, 0, 0
 	for i := range done {
 		done[i], abortAt[i], apCount[i], noYield[i], lastSite[i], quantum[i], spinRun[i] = 0, 0, 0, 0, 0, 0, 0
+		lockDepth[i] = 0
 		prio[i] = 0
 	}
 	if c.AbortTask >= 1 && c.AbortTask <= MaxTasks {
